@@ -151,6 +151,8 @@ func c10Eval(cs *c10Case) (key, msg string, err error) {
 }
 
 var realSystems = map[string]*prover.ProvingSystem{}
+var lastReal = map[string][]byte{}
+var lastHash = map[string]*big.Int{}
 
 func c10Body(c *ev.Ctx) {
 	quick := c.Quick()
@@ -293,6 +295,9 @@ func c10Body(c *ev.Ctx) {
 			if err != nil {
 				c.HarnessError("prove (%s): %v", mode, err)
 			}
+			if js, e := json.Marshal(pr); e == nil {
+				lastReal[mode], lastHash[mode] = js, hash
+			}
 			var buf bytes.Buffer
 			pr.Proof.WriteRawTo(&buf)
 			cs := c10Case{Kind: "real", Raw: hex.EncodeToString(buf.Bytes()[:256]), Mode: mode, Hash: hash.String()}
@@ -314,6 +319,36 @@ func c10Body(c *ev.Ctx) {
 			}
 			if realShort >= 2 && i >= 8 {
 				break
+			}
+		}
+	}
+	// every slot short in a VALID proof: re-randomise the last real proof of each mode
+	for mode, ps := range realSystems {
+		if lastReal[mode] == nil {
+			continue
+		}
+		vars, err := proofVariants(ps, lastReal[mode], 4000)
+		if err != nil {
+			c.HarnessError("proof variants: %v", err)
+		}
+		for _, v := range vars {
+			pr, err := decodeProofIndependentlyV(v.JSON)
+			if err != nil {
+				c.HarnessError("variant: %v", err)
+			}
+			var buf bytes.Buffer
+			pr.Proof.WriteRawTo(&buf)
+			cs := c10Case{Kind: "real", Raw: hex.EncodeToString(buf.Bytes()[:256]), Mode: mode, Hash: lastHash[mode].String()}
+			key, msg, err := c10Eval(&cs)
+			if err != nil {
+				c.HarnessError("%v", err)
+			}
+			evals++
+			realN++
+			realShort++
+			classes["real-rerandomised:"+strings.Join(v.Short, ",")] = true
+			if msg != "" {
+				c.Violation(key, msg, cs)
 			}
 		}
 	}
